@@ -619,3 +619,53 @@ def replay_lowerbound_k(o, model):
                 return dict(ok=True, function="MinFlowDecomp (get_lowerbound_k)", **rec)
             tried.append(rec)
     return dict(ok=False, function="MinFlowDecomp (get_lowerbound_k)", tried=len(tried))
+
+
+def replay_lowerbound_k_cycles(o, model):
+    """native replay for MinFlowDecompCycles.get_lowerbound_k: on small digraphs with cycles (one with ignored edges; the edge-weighted class rejects additional starts / ends) the number of walks
+    MinFlowDecompCycles returns - default options and with the min-gen-set bound - must be the smallest k for which kFlowDecompCycles is feasible."""
+    import networkx as nx
+    import flowpaths as fp
+    INST = [
+        ([("s", "a", 2), ("a", "b", 3), ("b", "a", 1), ("b", "t", 2)], [], [], []),
+        ([("s", "a", 3), ("a", "a", 2), ("a", "t", 3)], [], [], []),
+        ([("s", "a", 2), ("s", "b", 1), ("a", "c", 2), ("b", "c", 1), ("c", "d", 4), ("d", "c", 1), ("d", "t", 3)], [("s", "b"), ("b", "c")], [], []),
+        ([("s", "a", 1), ("a", "b", 2), ("b", "c", 2), ("c", "a", 1), ("c", "t", 1)], [], [], []),
+        ([("s", "a", 6), ("a", "c1", 2), ("c1", "a", 2), ("a", "b", 6), ("b", "c2", 3), ("c2", "b", 3), ("b", "t", 6)], [], [], []),
+    ]
+    tried = []
+    for E, ign, starts, ends in INST:
+        def build():
+            G = nx.DiGraph()
+            for a, b, w in E:
+                G.add_edge(a, b, flow=w)
+            return G
+        kw = dict(flow_attr="flow", weight_type=int, elements_to_ignore=list(ign))
+        if starts:
+            kw["additional_starts"] = list(starts)
+        if ends:
+            kw["additional_ends"] = list(ends)
+        true_min = None
+        for k in range(1, len(E) + 1):
+            try:
+                m = fp.kFlowDecompCycles(build(), k=k, **kw)
+                m.solve()
+                if m.is_solved():
+                    true_min = k
+                    break
+            except Exception:      # noqa
+                break
+        if true_min is None:
+            continue
+        for opts in ({}, {"use_min_gen_set_lowerbound": True}, {"lowerbound_k": 1}):
+            try:
+                m = fp.MinFlowDecompCycles(build(), optimization_options=dict(opts), **kw)
+                m.solve()
+                got = len(m.get_solution()["walks"]) if m.is_solved() else "unsolved"
+            except Exception as e:      # noqa
+                got = "raised %s: %s" % (type(e).__name__, str(e)[:80])
+            rec = dict(edges=E, ignored=ign, starts=starts, ends=ends, options=opts, walks=got, smallest_feasible_k=true_min)
+            if got != true_min:
+                return dict(ok=True, function="MinFlowDecompCycles (get_lowerbound_k)", **rec)
+            tried.append(rec)
+    return dict(ok=False, function="MinFlowDecompCycles (get_lowerbound_k)", tried=len(tried))
